@@ -42,6 +42,14 @@ def evalC13AllBlocked (outs : List String) : Verdict :=
 
 def evalC13 (ins outs : List String) : Verdict :=
   if kv? ins "kind" == some "allblocked" then evalC13AllBlocked outs else
+  if kv? ins "kind" == some "twin" then
+    (match kvNat? ins "samehash", kv? outs "first", kv? outs "second" with
+     | some 1, some "valid", some second =>
+       -- the model (P2P.Client): an answer that fails Validate is never a valid answer, whatever was seen before
+       if second == "err" then .ok "twin" else
+       .prop "c13_only_valid_answers" s!"a header that fails Validate was returned ({second}) after a valid header with the same hash had been processed by the same client"
+     | some 1, some f, _ => .prop "c13_error_iff_no_valid" s!"the valid answer was not returned: first={f}"
+     | _, _, _ => .bad "C13 twin") else
   match kv? ins "op", kv? ins "answers", (kv? ins "order").bind natList?, kv? outs "hdr", kv? outs "err" with
   | some op, some answers, some order, some hdr, some err =>
     match (answers.splitOn ",").mapM gansOf? with
